@@ -34,7 +34,11 @@ class _WriterImpl(IRVisitor):
         return f"{i.value}"
 
     def visit_float(self, f: Float) -> str:
-        return f"{f.value:.{self.FLOAT_PRECISION}}"
+        mantissa, exponent_separator, exponent = f"{f.value:.{self.FLOAT_PRECISION}}".partition("e")
+        if exponent_separator and "." not in mantissa:
+            # cQASM 3 float literals in exponent notation need a decimal point: 1.0e-05, not 1e-05.
+            mantissa += ".0"
+        return mantissa + exponent_separator + exponent
 
     def visit_measure(self, measure: Measure) -> None:
         if measure.is_abstract:
